@@ -100,8 +100,20 @@ func main() {
 		if err != nil {
 			panic(err)
 		}
+		names := []string{}
 		for _, e := range ents {
-			name := e.Name()
+			names = append(names, e.Name())
+		}
+		// files that exist only in the mutant directory (a change that adds a file
+		// to a rewritten package) are rewritten too
+		for src := range replace {
+			if filepath.Dir(src) == filepath.Join(repo, pkg) {
+				if _, err := os.Stat(src); err != nil {
+					names = append(names, filepath.Base(src))
+				}
+			}
+		}
+		for _, name := range names {
 			if !strings.HasSuffix(name, ".go") || strings.HasSuffix(name, "_test.go") {
 				continue
 			}
